@@ -227,6 +227,13 @@ func c13BaseCfg(t *testing.T, a *chain.App, ctx sdk.Context, cmstThird bool) (ap
 				DebtCeiling: sdk.NewInt(1000000000000000), DebtFloor: sdk.NewInt(1000000), Active: true, OraclePrice: true,
 				AssetOutPrice: 1000000, MinUsdValLeft: 100000})
 			ep[[2]uint64{app, out}] = id
+			// a second extended pair on the same pair WITHOUT draw-down / closing fee: a vault opened on it pays
+			// nothing into the collector, so a liquidation penalty can be the FIRST inflow of its (app, asset)
+			c13Epz[[2]uint64{app, out}] = addExtPair(t, a, ctx, extPairCfg{Name: "CMDXZ-" + string(rune(65+i)) + string(rune(65+j)), App: app, Pair: pr,
+				StabilityFee: sdk.NewDecWithPrec(25, 2), ClosingFee: sdk.ZeroDec(), LiqPenalty: sdk.NewDecWithPrec(12, 2),
+				DrawDownFee: sdk.ZeroDec(), MinCr: sdk.NewDecWithPrec(15, 1),
+				DebtCeiling: sdk.NewInt(1000000000000000), DebtFloor: sdk.NewInt(1000000), Active: true, OraclePrice: true,
+				AssetOutPrice: 1000000, MinUsdValLeft: 100000})
 		}
 		// vault interest accrues only for whitelisted apps
 		if err := a.Rewardskeeper.WhitelistAppIDVault(ctx, app); err != nil {
@@ -235,6 +242,9 @@ func c13BaseCfg(t *testing.T, a *chain.App, ctx sdk.Context, cmstThird bool) (ap
 	}
 	return
 }
+
+// (app, assetOut) -> the extended pair without draw-down / closing fee (built once by c13BaseCfg)
+var c13Epz = map[[2]uint64]uint64{}
 
 var c13Huge, _ = sdk.NewIntFromString("100000000000000000000") // 1e20 > int64
 
@@ -659,6 +669,11 @@ func c13RunCase(t *testing.T, a *chain.App, base sdk.Context, tr *tracer, r *rng
 				w.c13Obs()
 			}
 		}
+	}
+	// the collector's inflow paths in every ORDER for one (app, asset): the first inflow of a net-fee record is a
+	// vault fee (UpdateCollector, first-time branch), a penalty / auction close (SetNetFeeCollectedData alone), ...
+	if r.chance(60) {
+		w.c13InflowOrders(r)
 	}
 	for i := 0; i < 1+r.intn(4); i++ { // a few lockers to start with
 		w.c13Create(r.intn(len(w.users)), apps[r.intn(2)], assets[1+r.intn(2)], c13Amount(r))
